@@ -6,6 +6,7 @@
  * Also prints the advertised limits and a few macros as "def <name> <value>" lines.
  */
 #include <stdio.h>
+#include <string.h>
 #include "lib_stable/reed-solomon_gf_2_8/of_reed-solomon_gf_2_8.c"
 #include "lib_stable/reed-solomon_gf_2_m/galois_field_codes_utils/algebra_2_4.h"
 #include "lib_stable/reed-solomon_gf_2_m/galois_field_codes_utils/algebra_2_8.h"
@@ -28,6 +29,23 @@ int main(void)
 	DUMP1(of_rs_gf_exp, long long); DUMP1(of_rs_gf_log, long long); DUMP1(of_rs_inverse, long long);
 	DUMP2(of_gf_mul_table);
 	DUMP1(of_hw8table, long long);
+	{
+		/* regeneration: the exported of_rs_init() may be called again; the tables must come out the same */
+		static gf exp2[sizeof(of_rs_gf_exp)/sizeof(of_rs_gf_exp[0])], inv2[sizeof(of_rs_inverse)/sizeof(of_rs_inverse[0])];
+		static gf mul2[sizeof(of_gf_mul_table)/sizeof(of_gf_mul_table[0])][sizeof(of_gf_mul_table[0])/sizeof(of_gf_mul_table[0][0])];
+		static int log2_[sizeof(of_rs_gf_log)/sizeof(of_rs_gf_log[0])];
+		long mism = 0, first = -1;
+		memcpy (exp2, of_rs_gf_exp, sizeof(exp2)); memcpy (inv2, of_rs_inverse, sizeof(inv2));
+		memcpy (mul2, of_gf_mul_table, sizeof(mul2)); memcpy (log2_, of_rs_gf_log, sizeof(log2_));
+		of_rs_init();
+		for (size_t i = 0; i < sizeof(exp2)/sizeof(exp2[0]); i++) if (exp2[i] != of_rs_gf_exp[i]) { mism++; if (first < 0) first = 1000000 + (long)i; }
+		for (size_t i = 0; i < sizeof(inv2)/sizeof(inv2[0]); i++) if (inv2[i] != of_rs_inverse[i]) { mism++; if (first < 0) first = 2000000 + (long)i; }
+		for (size_t i = 0; i < sizeof(log2_)/sizeof(log2_[0]); i++) if (log2_[i] != of_rs_gf_log[i]) { mism++; if (first < 0) first = 3000000 + (long)i; }
+		for (size_t i = 0; i < sizeof(mul2)/sizeof(mul2[0]); i++) for (size_t j = 0; j < sizeof(mul2[0])/sizeof(mul2[0][0]); j++)
+			if (mul2[i][j] != of_gf_mul_table[i][j]) { mism++; if (first < 0) first = 4000000 + (long)(i * 256 + j); }
+		printf("def RS_REGEN_MISMATCHES %ld\n", mism);
+		printf("def RS_REGEN_FIRST %ld\n", first < 0 ? 0 : first);
+	}
 	printf("def RS_GF_BITS %d\n", GF_BITS);
 	printf("def RS_GF_SIZE %d\n", GF_SIZE);
 	printf("def RS_UNROLL %d\n", UNROLL);
